@@ -2076,10 +2076,18 @@ func (t *Topic) anotherUserSub(sess *Session, asUid, target types.Uid, asChan bo
 			return nil, err
 		}
 
+		// A P2P participant who had unsubscribed is re-invited: keep the name under which the topic
+		// is shown to the user and the peer's public, they are not part of the subscription.
+		oldData := userData
 		userData = perUserData{
 			modeGiven: sub.ModeGiven,
 			modeWant:  sub.ModeWant,
 			private:   nil,
+		}
+		if t.cat == types.TopicCatP2P {
+			userData.topicName = oldData.topicName
+			userData.public = oldData.public
+			userData.trusted = oldData.trusted
 		}
 		t.perUser[target] = userData
 		t.computePerUserAcsUnion()
